@@ -298,29 +298,15 @@ def agreesOn (P : Params) (dL dR : List Val) (mask : List Nat) : Bool :=
     = .ok ((ccRow .ruleFix P dL dR mask).map (·.flag), (ccRow .ruleFix P dL dR mask).map (fun o => confFl o.conf)))
 
 /-
-  GOAL (full strength, NOT YET PROVED — kept visible):
-
-    theorem crossCheckRow_generated_eq (P : Params) (dL dR : List Val) (mask : List Nat)
-        (hm : mask.length = dL.length) (hr : dR.length = dL.length)      -- the maps of a dataset pair have one shape
-        (hu : ∀ f ∈ mask, f < 65536)                                      -- the validity mask is a uint16 array
-        (hn : dL.length ≤ 2 ^ 63) :                                       -- column indices are int64
-        crossCheckRow mask (embedRow dL) (embedRow dR) (.fin P.threshold) (arange P.dmin P.dmax)
-          = .ok ((ccRow .ruleFix P dL dR mask).map (·.flag),
-                 (ccRow .ruleFix P dL dR mask).map (fun o => confFl o.conf))
-
-  What is proved below instead (`…_partial` in the sense of BUILDING.md):
-  * `crossCheckRow_consistency_eq` (end of the file): stage 1 of the generated definition — everything up to `invalid_col`: the
-    confidence row and the ordered list of invalidated columns — equals the hand model FOR EVERY ROW, all 20 tests true;
-    stages 2 (witness search) and 3 (flag update; an attempt is kept out of the tree) are the missing part;
-  * the bridge lemmas the proof needs, for ALL lists: `gather_where`, `scatterSet_where`, `scatterSet_range`,
-    `getD_scatterSet_map`, `select_map`, `maskSet_map`, `zipWith_map_map`, `zipWith3_map`, `tileRows_len`, `tileCols_len`,
-    `gatherOk_where` (with them `simp only` brings every vector of the generated definition to the form `L.map f` over a
-    filtered list of columns; tried: the normal form is reached);
-  * `generated_eq_on_table`: the equality itself, by kernel evaluation, on a table of rows chosen so that each behaviour the
-    statement depends on is decided by at least one row.  It is re-proved against what the source says on every run.
-  Missing: the 42 shape / bounds / uint16 tests of the generated definition shown true from `hm hr hu hn`, and the pointwise
-  comparison of the normal form with `ccPixel .ruleFix` (membership in `invalid_col`, `castInt ∘ rint` on `Fl.ofVal`, the
-  count over the interval = `comp`).
+  MAIN THEOREM (end of the file, proved): `crossCheckRow_generated_eq` — for every `P`, `dL`, `dR`, `mask` with
+  `mask.length = dL.length`, `dR.length = dL.length` (the maps of a dataset pair have one shape), `∀ f ∈ mask, f < 65536` (uint16)
+  and `dL.length ≤ 2^63` (column indices are int64):
+      crossCheckRow mask (embedRow dL) (embedRow dR) (.fin P.threshold) (arange P.dmin P.dmax)
+        = .ok ((ccRow .ruleFix P dL dR mask).map (·.flag), (ccRow .ruleFix P dL dR mask).map (fun o => confFl o.conf))
+  by composing the three generated stages: `crossCheckRow_consistency_eq` (stage 1), `crossCheckRow_witness_eq` (stage 2),
+  `crossCheckRow_flags_eq` (stage 3), then `flag_pointwise` / `conf_pointwise` against `ccPixel .ruleFix`.  Transfer of the
+  specification: `generated_row_clauses`, `generated_never_both`, `generated_invalid_untouched`.
+  `generated_eq_on_table` (kernel evaluation on six discriminating rows) is kept as an independent instance check.
 -/
 
 /-- rows chosen to separate the behaviours the statement depends on: distance equal to the threshold (kept), just above
